@@ -29,7 +29,7 @@ def enumerate_cases(mod, tier, seed):
     if tier == "thorough":
         extra = []
         for c in cases:
-            if set((c.config or {}).get("concrete_blocks") or ()) - {"viaL", "upd", "viaSL", "pxdiag", "pxSL", "nnq"}:
+            if set((c.config or {}).get("concrete_blocks") or ()) - {"viaL", "upd", "updw", "viaSL", "pxdiag", "pxSL", "nnq"}:
                 for k in (1, 2):
                     c2 = copy.copy(c)
                     c2.id = f"{c.id}/draw{k}"
